@@ -230,7 +230,7 @@ CLAIMED = {
         "category": "exploration",
         "text": "Exhaustive over all 66 067 digraphs on <= 4 vertices (self-loops included), loop-free digraphs on 5 vertices (<= 5 edges quick, "
                 "all 2^20 thorough), loop-free digraphs on 6-7 vertices with <= 2 (3) edges (up to 5040 orderings each) and the precedence graphs the ordered solver builds for every tuple of <= 3 (4) leaf syntenies: toposort_all "
-                "= permutation filter as a multiset, toposort returns a member iff one exists; the null graph; on <= 4 vertices also labels that `<` orders only partially (frozensets) and a None / 0 / '' / () mix; one graph object (shared successor "
+                "= permutation filter as a multiset, toposort returns a member iff one exists; the null graph; on <= 4 vertices also labels that `<` orders only partially (frozensets) and a None / 0 / '' / () mix; one dict re-wired in place into every 3-vertex graph with the same number of edges between sorts; one graph object (shared successor "
                 "sets) used by toposort, toposort_all and toposort again without being modified.",
         "design_ref": "6 (C19)",
         "note": "Trusted: refmodel/graphs.py:topo_orders (permutation filtering).",
